@@ -271,6 +271,20 @@ func (c *Collector) KnownGone(id string) {
 	c.mu.Unlock()
 }
 
+// Unjudged records that one generated case could not be judged within its budget (a schedule that
+// did not come about, a linearizability search that ran out of time): it is counted and a sample
+// is kept in the evidence, but it says nothing about the property either way and does not make
+// the check inconclusive - the other cases decide.
+func (c *Collector) Unjudged(why string) {
+	c.mu.Lock()
+	n, _ := c.extra["unjudged_cases"].(int)
+	c.extra["unjudged_cases"] = n + 1
+	if n < 3 {
+		c.extra[fmt.Sprintf("unjudged_example_%d", n+1)] = why
+	}
+	c.mu.Unlock()
+}
+
 func (c *Collector) Inconclusive(why string) {
 	c.mu.Lock()
 	c.inconcl = append(c.inconcl, why)
